@@ -168,6 +168,7 @@ def main():
         ck.inconclusive("Map::size closure not found in the MIR dump")
 
     results = smt.solve_all(queries, tq, workers=14, order=["z3new", "cvc5"], progress=1000)
+    results = smt.replayable_models(queries, results, tq, workers=14, order=["z3new", "cvc5"])
     ck.count(results)
     d = driver.Driver(60.0)
     n_w = disagreements = 0
